@@ -6,6 +6,7 @@ import (
 	"go/token"
 	"go/types"
 	"math/big"
+	"os"
 	"strings"
 
 	"golang.org/x/tools/go/ssa"
@@ -85,26 +86,28 @@ type Config struct {
 }
 
 type Interp struct {
-	P       *load.Prog
-	Cfg     Config
-	journal []jent
-	Trace   []TraceEv
-	Events  []Event
-	Guards  []Guard
-	assume  map[*PAtom]bool
-	bind    map[*IAtom]*Term
-	oracle  *oracle
-	cfgs    map[*ssa.Function]*cfgInfo
-	globals map[*ssa.Global]*Object
-	nobj    int
-	steps   int
-	depth   int
-	joining map[*ssa.BasicBlock]int
-	Hashes  []*HashObj
-	LeafCalls int
+	P            *load.Prog
+	Cfg          Config
+	journal      []jent
+	Trace        []TraceEv
+	Events       []Event
+	Guards       []Guard
+	assume       map[*PAtom]bool
+	bind         map[*IAtom]*Term
+	oracle       *oracle
+	cfgs         map[*ssa.Function]*cfgInfo
+	globals      map[*ssa.Global]*Object
+	nobj         int
+	steps        int
+	depth        int
+	joining      map[*ssa.BasicBlock]int
+	Hashes       []*HashObj
+	LeafCalls    int
 	FuncsEntered map[*ssa.Function]int
-	inputs  map[string]*Object
-	nreads  int
+	inputs       map[string]*Object
+	nreads       int
+	inputRoots   []*Cell
+	PowApplied   []*ssa.Function
 }
 
 type oracle struct {
@@ -127,6 +130,8 @@ func (it *Interp) abortf(format string, a ...interface{}) {
 func (it *Interp) event(kind string, fn *ssa.Function, pos token.Pos, format string, a ...interface{}) {
 	it.Events = append(it.Events, Event{Kind: kind, Fn: fn, Pos: pos, Msg: fmt.Sprintf(format, a...)})
 }
+
+var debugCalls = os.Getenv("SVDEBUG") != ""
 
 // New creates an interpreter and runs the module's package initialisers.
 func New(p *load.Prog, cfg Config) *Interp {
@@ -322,6 +327,9 @@ func (it *Interp) callFn(fn *ssa.Function, args []Value, inLoop bool) Value {
 	}
 	defer func() { it.depth-- }()
 	it.FuncsEntered[fn]++
+	if debugCalls && it.depth <= 3 {
+		fmt.Fprintf(os.Stderr, "%*scall %s\n", 2*it.depth, "", fn)
+	}
 	fr := &Frame{it: it, fn: fn, regs: make(map[ssa.Value]Value, 32), inLoop: inLoop}
 	if len(args) != len(fn.Params) {
 		it.abortf("arity mismatch calling %s", fn)
@@ -1056,3 +1064,12 @@ func DescribePanic(e interface{}) string {
 	}
 	return ""
 }
+
+// InputRoots lists the root cells of the input objects created by the driver, in creation order.
+func (it *Interp) InputRoots() []*Cell {
+	return it.inputRoots
+}
+
+// AsTerm exposes asTerm; Show exposes show.
+func AsTerm(v Value) (*Term, bool) { return asTerm(v) }
+func Show(v Value) string          { return show(v) }
